@@ -141,11 +141,17 @@ def move_conditions_from_inner_join_to_where(sections):
             new_where_list.append(join.pop())
     return new_sections
 
+condition_nodes = frozenset(('EQ', 'NE', 'LT', 'LE', 'GT', 'GE', 'FLOAT_EQ', 'FLOAT_NE', 'AND', 'NOT', 'IS_NULL', 'IS_NOT_NULL',
+                            'LIKE', 'NOT_LIKE', 'BETWEEN', 'NOT_BETWEEN', 'IN', 'NOT_IN', 'EXISTS', 'NOT_EXISTS'))
+
 def make_binary_op(symbol, default_parentheses=False):
     def binary_op(builder, expr1, expr2, parentheses=None):
         if parentheses is None: parentheses = default_parentheses
         if parentheses: return '(', builder(expr1), symbol, builder(expr2), ')'
-        return builder(expr1), symbol, builder(expr2)
+        # an operand that is itself a condition (e.g. `e.flag == (e.x == 1)`) must keep its grouping
+        sql1 = ('(', builder(expr1), ')') if expr1[0] in condition_nodes else builder(expr1)
+        sql2 = ('(', builder(expr2), ')') if expr2[0] in condition_nodes else builder(expr2)
+        return sql1, symbol, sql2
     return binary_op
 
 def make_unary_func(symbol):
